@@ -82,3 +82,59 @@ Proof.
   apply params_loop_spec; [lia|].
   rewrite !len_cons in *. lia.
 Qed.
+
+(* ---- the build profile does not matter to the OPEN arm (hence to parse_message / try_parse) *)
+Lemma cap_decode_profile code c clen : cap_decode Debug code c clen = cap_decode Release code c clen.
+Proof.
+  unfold cap_decode. destruct (N.eq_dec code 64) as [->|Hn].
+  - destruct (negb (clen mod 4 =? 2)) eqn:E; [reflexivity|].
+    assert (H2 : 2 <= clen) by lia. rewrite !(sub_w_ok _ clen 2 H2). reflexivity.
+  - destruct code as [|q]; [reflexivity|].
+    do 8 (destruct q as [q|q|]; try reflexivity; try congruence).
+Qed.
+
+Lemma caps_loop_profile : forall fuel c crem acc as4,
+  caps_loop fuel Debug c crem acc as4 = caps_loop fuel Release c crem acc as4.
+Proof.
+  induction fuel as [|f IH]; intros; cbn [caps_loop]; [reflexivity|].
+  destruct (crem =? 0); [reflexivity|]. destruct (crem <? 2); [reflexivity|].
+  destruct (get8 c) as [[ct c1]|]; cbn [must bind]; [|reflexivity].
+  destruct (get8 c1) as [[cl c2]|]; cbn [must bind]; [|reflexivity].
+  destruct (_ <? _); [reflexivity|]. rewrite cap_decode_profile.
+  destruct (cap_decode Release ct c2 cl) as [[cp c3]| |]; cbn [bind]; try reflexivity. apply IH.
+Qed.
+
+Lemma params_loop_profile : forall fuel c prem acc as4,
+  params_loop fuel Debug c prem acc as4 = params_loop fuel Release c prem acc as4.
+Proof.
+  induction fuel as [|f IH]; intros; cbn [params_loop]; [reflexivity|].
+  destruct (prem =? 0); [reflexivity|]. destruct (prem <? 2); [reflexivity|].
+  destruct (get8 c) as [[ot c1]|]; cbn [must bind]; [|reflexivity].
+  destruct (get8 c1) as [[ol c2]|]; cbn [must bind]; [|reflexivity].
+  destruct (_ <? _); [reflexivity|]. destruct (ot =? 2); [|reflexivity].
+  rewrite caps_loop_profile.
+  destruct (caps_loop _ Release c2 ol acc as4) as [[[a b] c3]| |]; cbn [bind]; try reflexivity. apply IH.
+Qed.
+
+Lemma parse_open_profile hdr frame : parse_open Debug hdr frame = parse_open Release hdr frame.
+Proof.
+  unfold parse_open. destruct (len frame <? 29); [reflexivity|].
+  destruct (skipn 19 frame) as [|ver [|a1 [|a2 [|h1 [|h2 [|r1 [|r2 [|r3 [|r4 [|plen c]]]]]]]]]]; try reflexivity.
+  destruct (negb _); [reflexivity|]. destruct (_ || _); [reflexivity|]. destruct (_ || _); [reflexivity|].
+  destruct (_ <? _); [reflexivity|]. rewrite params_loop_profile. reflexivity.
+Qed.
+
+Lemma try_parse_profile_indep other cd src : try_parse other Debug cd src = try_parse other Release cd src.
+Proof.
+  unfold try_parse, parse_message.
+  destruct (len src <? 19); [reflexivity|].
+  destruct (nth_error src 16); [|reflexivity]. destruct (nth_error src 17); [|reflexivity].
+  destruct (_ || _); [reflexivity|]. destruct (len src <? _); [reflexivity|].
+  destruct (len _ <? 19); [reflexivity|].
+  destruct (nth_error _ 18) as [code|]; cbn [must bind]; [|reflexivity].
+  destruct (nth_error _ 16); cbn [must bind]; [|reflexivity].
+  destruct (nth_error _ 17); cbn [must bind]; [|reflexivity].
+  destruct (N.eq_dec code 1) as [->|Hn]; [rewrite parse_open_profile; reflexivity|].
+  destruct code as [|q]; [reflexivity|].
+  do 3 (destruct q as [q|q|]; try reflexivity; try congruence).
+Qed.
